@@ -12,9 +12,12 @@
    ("bk_reorder_0" = <<"bk", "reorder", "0">>), which is what dic_to_keydic / keydic_to_dic depend on. *)
 EXTENDS Integers, Sequences, FiniteSets, TLC, SequencesExt, FiniteSetsExt
 
-CONSTANTS WriterIndexing,    \* "nested": the writers address data[ik][ib..] ; "tuple": data[ik, ib..] on the dict (eig.py, amn.py as read)
-          MmnWriterBkvec,    \* TRUE: MMN.to_w90_file takes neighbours and G from the b-vector table; FALSE: from self (mmn.py as read: no such attributes)
-          LoadtxtSqueeze     \* TRUE: np.loadtxt returns a 1-d array for a one-line .eig file (eig.py as read); FALSE: always 2-d
+CONSTANTS WriterIndexing,    \* "nested": the writers address data[ik][ib..] (eig.py, amn.py since 4825d857); "tuple": data[ik, ib..] on
+                             \* the dict (the former defect, kept as a must-fail sensitivity variant)
+          MmnWriterBkvec,    \* TRUE: MMN.to_w90_file takes neighbours and G from the b-vector table (the intended writer); FALSE: from
+                             \* self (mmn.py as it is: MMN keeps no such attributes - known finding MMN.to_w90_file:exception)
+          LoadtxtSqueeze     \* FALSE: the .eig reader always gets a 2-d array (loadtxt(ndmin=2), eig.py since 4825d857); TRUE: a 1-d
+                             \* array for a one-line file (the former defect, must-fail sensitivity variant)
 
 Fail(msg) == [err |-> msg]
 OkObj(x) == [err |-> "", obj |-> x]
